@@ -39,7 +39,7 @@ def cases(tier, seed):
     frames_forms = [(fr, form) for fr in pick_frames(FRAMES, tier, seed) for form in ("1d", "2d", "2d+extra")]
     # other representations of the same cloud: Fortran-ordered 2-D arrays, integer dtype (lattice scaled by 4 so that it is
     # integer valued) for both coordinates or for the easting only
-    frames_forms += [([1.0, 0.0], "2dF"), ([4.0, 0.0], "int"), ([4.0, 0.0], "int_e")]
+    frames_forms += [([1.0, 0.0], "2dF"), ([4.0, 0.0], "int"), ([4.0, 0.0], "int_e"), ([1.0, 0.0], "dups")]
     for fr, form in frames_forms:
         if True:
             for region in REGIONS:
@@ -57,7 +57,7 @@ def cases(tier, seed):
                         yield dict(kind="roll", frame=fr, cloud=list(sub), form="1d", region=None, size=size, step=st, adjust="spacing")
         centers = [(2.0, 1.5), (0.0, 0.0), (1.25, 2.75), (2.1, 1.3), (-1.0, 5.0)]
         szs = [0.1, 0.5, 1.0, 2.0, 4.0]
-        for form in ("1d", "2d", "2d+extra") + (("2dF",) if fr == [1.0, 0.0] else ()):
+        for form in ("1d", "2d", "2d+extra") + (("2dF", "dups") if fr == [1.0, 0.0] else ()):
             for c in centers:
                 for k in (1, 2, 3):
                     for sl in itertools.permutations(szs, k):
@@ -77,6 +77,10 @@ def _cloud(case):
     e = np.array([p[0] * sc + off for p in pts])
     n = np.array([p[1] * sc + off for p in pts])
     form = case["form"]
+    if form == "dups":
+        # repeated positions are distinct points (several heights above one station, a line flown twice): seed C14-r2_2
+        e = np.concatenate([e, e[::3], e[::7]])
+        n = np.concatenate([n, n[::3], n[::7]])
     if form in ("2d", "2d+extra", "2dF"):
         e, n = e.reshape(13, 17), n.reshape(13, 17)
     if form == "2dF":
